@@ -199,6 +199,62 @@ theorem resume_refuses_on_source_count_change (db : List (Graph P)) (ident : Ide
           · simp
           · simp [hsrc]
 
+theorem doneSourceOk_get : ∀ (ds : List (Done P)) (gs : List (Graph P)), doneSourceOk ds gs = true →
+    ∀ (j : Nat) (d : Done P) (g : Graph P), ds[j]? = some d → gs[j]? = some g → counts g = (d.nodeCount, d.edgeCount) := by
+  intro ds
+  induction ds with
+  | nil => intro gs _ j d g hd _; simp at hd
+  | cons d0 ds ih =>
+    intro gs h j d g hd hg
+    cases gs with
+    | nil => simp at hg
+    | cons g0 gs =>
+      simp only [doneSourceOk, Bool.and_eq_true, beq_iff_eq] at h
+      cases j with
+      | zero => simp at hd hg; subst hd; subst hg; exact h.1
+      | succ j => exact ih gs h.2 j d g (by simpa using hd) (by simpa using hg)
+
+/-- Changed source of an ALREADY COMPLETED graph: if the source of any graph the checkpoint records as completed
+differs from the recorded pair (node count, relationship count) in AT LEAST ONE of the two dimensions — a node
+added with the relationships unchanged, a relationship added with the nodes unchanged, … — resume never succeeds. -/
+theorem resume_refuses_on_completed_source_change (db : List (Graph P)) (ident : Identity) (fs : FS P) (v : Ckpt P)
+    (hc : fs.get .ckpt = some (.ckpt v)) (j : Nat) (d : Done P) (g : Graph P)
+    (hd : v.done[j]? = some d) (hg : db[j]? = some g)
+    (hne : g.nodes.length ≠ d.nodeCount ∨ g.edges.length ≠ d.edgeCount) :
+    (resume db ident fs).outcome ≠ .ok := by
+  apply resume_refuses_on_source_count_change db ident fs v hc
+  cases hs : sourceOk db v with
+  | false => rfl
+  | true =>
+    unfold sourceOk at hs
+    rw [Bool.and_eq_true] at hs
+    have := doneSourceOk_get v.done db hs.1 j d g hd hg
+    unfold counts at this
+    simp only [Prod.mk.injEq] at this
+    rcases hne with h | h
+    · exact absurd this.1 h
+    · exact absurd this.2 h
+
+/-- Changed source of the graph IN PROGRESS: if its counts differ from the snapshot the checkpoint took, in at
+least one dimension, resume never succeeds. -/
+theorem resume_refuses_on_current_source_change (db : List (Graph P)) (ident : Identity) (fs : FS P) (v : Ckpt P)
+    (hc : fs.get .ckpt = some (.ckpt v)) (c : Cur P) (s : Nat × Nat) (g : Graph P)
+    (hcur : v.current = some c) (hs : c.snapshot = some s) (hg : db[c.index]? = some g)
+    (hne : g.nodes.length ≠ s.1 ∨ g.edges.length ≠ s.2) :
+    (resume db ident fs).outcome ≠ .ok := by
+  apply resume_refuses_on_source_count_change db ident fs v hc
+  unfold sourceOk
+  rw [hcur]
+  simp only [hs, hg]
+  have : (counts g == s) = false := by
+    rw [beq_eq_false_iff_ne]
+    intro h
+    unfold counts at h
+    rcases hne with h' | h'
+    · exact h' (by rw [← h])
+    · exact h' (by rw [← h])
+  simp [this]
+
 /-- Unexpected file: if the directory holds a file that is neither the checkpoint, nor a fragment the
 checkpoint records, nor one of the temp files resume knows, resume never succeeds. -/
 theorem resume_refuses_on_unexpected_file (db : List (Graph P)) (ident : Identity) (fs : FS P) (v : Ckpt P)
